@@ -269,6 +269,10 @@ class Model:
                 v = np.asarray(v)
                 if v.dtype.kind not in "biuf":
                     raise RefRaises("non-real reference (%s)" % v.dtype)
+                if n.desc[0] == "parsed" and not leaves(n.desc) and v.dtype.kind in "biu":
+                    # a command without attribute references yields a Python / numpy scalar; as an attribute it is a
+                    # float array (an integer reading would only differ by int64 wrap-around and integer-power rules)
+                    v = v.astype(float)
                 v = np.broadcast_to(v, self.shape)
             self._cache[key] = v
         return self._cache[key]
